@@ -201,6 +201,17 @@ def cases(ctx):
         else:
             for v in vs:
                 for d in ds:
+                    if kind == "value" and dom == "raw" and name in ("factor_of", "has_factor") and d[0] == "m":
+                        continue   # str items would be %-formatted with the symbolic argument: they are in the conc/float docs
+                    if v[0] == "float" and name in ("factor_of", "has_factor"):
+                        # `atom % 2.5`: str atoms are formatted (enumerates), int/bool atoms meet a float (stalls z3):
+                        # the float argument meets concrete items only, the atom sits where `%` does not reach it
+                        d = ("lc", [("u1", U)], [f"BU({L}, u1)"], "[{'k': u1}, 1.5, 5.0, 2, 10, True, None, 's', '%d', '%', 7.5, 0, 0.0]")
+                    elif v[0] == "float":
+                        # a float constant against a symbolic int stalls z3: no int alternative in the document atoms
+                        # (nor a symbolic bool: bool == 1.5 goes through the same int/real mix)
+                        noint = {U: "Optional[str]", "int": "Optional[str]", "Optional[bool]": "Optional[str]"}
+                        d = (d[0], [(n, noint.get(t, t)) for n, t in d[1]], d[2], d[3])
                     out.append(one_case(kind, pre, name, v, d))
     # float items / float keys with concrete arguments (a float constant against a symbolic int stalls z3)
     CONC = {"equal_to": ["2"], "not_equal_to": ["2"], "less_than": ["2"], "greater_than": ["2"], "less_than_or_equal_to": ["2"],
